@@ -345,7 +345,7 @@ impl Scenario for C13 {
         "Seeded sessions: 1-2 worker threads x 1-2 channels in confirm mode publishing (mandatory or not) while registering, replacing, dropping and reading confirm and return listeners at random points; the broker confirms with singles / multiples / nacks in random batches and returns about half of the mandatory publishes; the connection owner registers (and re-registers) a blocked listener while the broker emits Blocked/Unblocked notices at random times. Oracle (sound model of a racy registry): every listener's items form a contiguous, verbatim, in-order slice of its channel's event stream, slices of successive listeners are disjoint and in registration order; a listener whose registration returned before the publish was issued, and that was still current when a later round trip on the channel completed, holds the confirm / return that publish caused (for blocked notices, which no client request causes: a listener installed — registration followed by a completed open_channel round trip — before the notice was sent holds it); a replaced listener's queue is disconnected one round trip later; with no listener or a dropped one every call still succeeds. Non-trivial = at least one listener was replaced or dropped while events were flowing and >= 3 events were forwarded; distinct = schedule trace hash.".to_string()
     }
     fn plan(&self, thorough: bool, seed: u64) -> Vec<CaseSpec> {
-        plan_random("C13", "listeners", seed, if thorough { 100_000 } else { 5_000 })
+        plan_random("C13", "listeners", seed, if thorough { 300_000 } else { 15_000 })
     }
     fn run_case(&self, spec: &CaseSpec, text: bool) -> CaseReport {
         let mut cs = spec.stream();
